@@ -410,7 +410,7 @@ struct QExpression {
                 left_negative = (Value.Number.Integer < 0);
 
                 if (left_negative) {
-                    Value.Number.Integer = -Value.Number.Integer;
+                    Value.Number.Natural = (SizeT64{0} - Value.Number.Natural); // magnitude; -2^63 stays defined.
                 }
 
                 break;
@@ -449,7 +449,7 @@ struct QExpression {
                 right_negative = (right.Value.Number.Integer < 0);
 
                 if (right_negative) {
-                    num_right = QNumber64{-right.Value.Number.Integer}.Natural;
+                    num_right = (SizeT64{0} - right.Value.Number.Natural); // magnitude; -2^63 stays defined.
                 } else {
                     num_right = right.Value.Number.Natural;
                 }
@@ -495,7 +495,7 @@ struct QExpression {
                     }
 
                 } else if (left_negative && right_odd) {
-                    Value.Number.Integer = -Value.Number.Integer;
+                    Value.Number.Natural = (SizeT64{0} - Value.Number.Natural);
                     Type                 = ExpressionType::IntegerNumber;
                 } else {
                     Type = ExpressionType::NaturalNumber;
